@@ -217,7 +217,7 @@ class BatchErr(ValueError):
     pass
 
 
-def scen_c11(gaps, kidx, rt, dur, failmask, explicit_keys=True, bt=2):
+def scen_c11(gaps, kidx, rt, dur, failmask, explicit_keys=True, bt=2, item_dur=0):
     """calls over keys a/b; outcome value or exception per key; retention window rt; no cancellation."""
     global LAST_INFO
     st = St()
@@ -231,6 +231,8 @@ def scen_c11(gaps, kidx, rt, dur, failmask, explicit_keys=True, bt=2):
         if dur > 0:
             await aio.sleep(dur)
         for k, v in batch:
+            if item_dur > 0:
+                await aio.sleep(item_dur)
             ki = 0 if k in ('a', '0') else 1
             if (failmask >> ki) & 1:
                 yield k, BatchErr(bid)
@@ -741,6 +743,16 @@ def c11_cells(tier):
                                 tier=q if (fm == 0 or pat == 'aaa') else 'thorough',
                                 timeout=300 if (fm == 0 or pat == 'aaa') else 600, family='c11',
                                 weight={'aba': 4, 'aab': 3, 'aaa': 3}[pat]))
+    # four calls on one key around two retention windows (a timer armed by an earlier hit must not evict a later request)
+    for sfx, pre in product_pre([parts('gaps[2]', [(1, 4), (5, 9)]), parts('gaps[3]', [(1, 5), (6, 10)])]):
+        out.append(Cell(name='c11_aaaa_windows_p%s' % sfx, sig='gaps: List[int], rt: int',
+                        pre=['len(gaps) == 4 and gaps[0] == 0 and 4 <= gaps[1] <= 11 and 7 <= rt <= 11', pre],
+                        body='H.scen_c11(gaps, [0, 0, 0, 0], rt, 1, 0)', tier=q, timeout=600, family='c11', weight=4))
+    # a key answered well before its batch ends: its window starts when *it* was answered
+    for sfx, pre in product_pre([parts('gaps[2]', [(0, 3), (4, 6), (7, 12)])]):
+        out.append(Cell(name='c11_aba_item_durations_p%s' % sfx, sig='gaps: List[int], rt: int, item_dur: int',
+                        pre=['len(gaps) == 3 and gaps[0] == 0 and 0 <= gaps[1] <= 1 and 0 <= rt <= 3 and 1 <= item_dur <= 3', pre],
+                        body='H.scen_c11(gaps, [0, 1, 0], rt, 0, 0, True, 2, item_dur)', tier=q, timeout=600, family='c11', weight=4))
     if tier != 'thorough':
         out = [c for c in out if c.tier == 'quick']
     out.append(Cell(name='twin_c11_recompute_and_join', sig='gaps: List[int], rt: int',
